@@ -16,11 +16,12 @@ import FsModel.ConfineDriver
 import FsModel.BulkDriver
 import FsModel.GlobDriver
 import FsModel.ConcDriver
+import FsModel.InfoDriver
 
 open Fs
 
 def handlers : List (String → List String → Option String) :=
-  [ PathDriver.handle, RefDriver.handle, FileDriver.handle, CopyDriver.handle, ArchiveDriver.handle, RouteDriver.handle, FaultDriver.handle, GuardDriver.handle, ParseDriver.handle, WalkDriver.handle, ConfineDriver.handle, BulkDriver.handle, GlobDriver.handle, ConcDriver.handle ]
+  [ PathDriver.handle, RefDriver.handle, FileDriver.handle, CopyDriver.handle, ArchiveDriver.handle, RouteDriver.handle, FaultDriver.handle, GuardDriver.handle, ParseDriver.handle, WalkDriver.handle, ConfineDriver.handle, BulkDriver.handle, GlobDriver.handle, ConcDriver.handle, InfoDriver.handle ]
 
 def dispatch (line : String) : String :=
   match (line.trimAscii.toString.splitOn " ").filter (· ≠ "") with
